@@ -34,7 +34,18 @@ pub fn nonempty_partition(r: &mut Rng, d: &[u8]) -> Vec<Vec<u8>> {
     out
 }
 /// sizes next to powers of two (64 … 2^20), the thresholds optimised code tends to introduce: 2^e - 2 … 2^e + 2
+thread_local! { static DICT: std::cell::RefCell<(Vec<u64>, Vec<u64>)> = std::cell::RefCell::new((vec![], vec![])); }
+/// sizes derived from one literal `b` of the library's current source: the value itself ± 3, its half and its multiples
+fn around(r: &mut Rng, b: u64) -> u64 {
+    match r.below(12) { 0 => b.saturating_sub(2), 1 => b.saturating_sub(1), 2 | 3 => b, 4 => b + 1, 5 => b + 2, 6 => b + 3, 7 => b / 2 + r.below(3), 8 => 2 * b + r.below(2), 9 => b * (2 + r.below(4)), 10 => b + 2 * (1 + r.below(3)), _ => b * 3 + r.below(2) }
+}
 pub fn ladder(r: &mut Rng, max_e: u64) -> usize {
+    // literals of the current source first (those not in the pinned tree's baseline with extra weight), powers of two otherwise
+    let hard_cap: u64 = if max_e >= 13 { 12_100_000 } else { 20_000 };
+    let pick = DICT.with(|d| { let d = d.borrow();
+        if !d.1.is_empty() && r.below(2) == 0 { Some(d.1[r.below(d.1.len() as u64) as usize]) }
+        else if !d.0.is_empty() && r.below(5) == 0 { Some(d.0[r.below(d.0.len() as u64) as usize]) } else { None } });
+    if let Some(b) = pick { if b >= 8 { let v = around(r, b); if v >= 1 && v <= hard_cap && (v <= (1u64 << max_e) + 2 || r.below(4) == 0) { return v as usize; } } }
     let e = 6 + match r.below(8) { 0 => r.below(max_e - 5), _ => r.below((max_e - 5).min(8)) };   // mostly 64 … 8192
     ((1u64 << e) as i64 + r.below(5) as i64 - 2).max(1) as usize
 }
@@ -51,6 +62,7 @@ fn join_chunks(c: &[Vec<u8>]) -> String { c.iter().map(|x| hex(x)).collect::<Vec
 pub fn generate(stream: &str, n: usize, seed: u64, out: &mut dyn Write) {
     let sid = stream.bytes().fold(7u64, |a, b| a.wrapping_mul(131).wrapping_add(b as u64));
     let mut r = Rng::seeded(seed, sid);
+    DICT.with(|d| *d.borrow_mut() = crate::consts::dictionary(stream));
     match stream {
         "annexb" => for _ in 0..n { gen_annexb(&mut r, out); },
         "annexb-exh" => gen_annexb_exhaustive(n, out),
@@ -68,6 +80,7 @@ pub fn generate(stream: &str, n: usize, seed: u64, out: &mut dyn Write) {
             let toks: Vec<&str> = line.split_whitespace().collect();
             let d = if toks[1] == "-" { vec![] } else { unhex(toks[1]) };
             let mut nal = vec![0x65u8]; nal.extend(escape(&d));
+            if r.below(8) == 0 { let at = 1 + r.below(nal.len() as u64) as usize; let bad: &[u8] = match r.below(3) { 0 => &[0, 0, 0], 1 => &[0, 0, 3, 0x80], _ => &[0, 0, 3, 4, 0x11] }; for (k, b) in bad.iter().enumerate() { nal.insert(at + k, *b); } }
             let chunks = nonempty_partition(&mut r, &nal);
             writeln!(out, "nalbits {} {} {}", join_chunks(&chunks), (r.below(4) != 0) as u8, toks[2..].join(" ")).unwrap(); } }
         "syntax" => gen_syntax(&mut r, n, out, false),
@@ -110,6 +123,18 @@ fn directed_annexb(r: &mut Rng) -> (Vec<u8>, Vec<Vec<u8>>) {
 
 /// units whose zero-free bodies, zero stuffing and push lengths sit next to powers of two; pushes end on held-back zeros
 fn gen_annexb_ladder(r: &mut Rng, out: &mut dyn Write) {
+    if r.below(4) == 0 {
+        // a run of bytes that belong to no unit (before the first start code, or after a reset), of ladder length, then a broken start
+        // code (zeros followed by a byte that is neither 00 nor 01), then 01 and data, then a real start code and a unit
+        let jl = ladder(r, 13); let mut d = filler(r, jl, true);
+        for _ in 0..r.below(3) { d.extend_from_slice(match r.below(4) { 0 => &[0, 0, 0xaa, 1, 0x65, 0x88], 1 => &[0, 0xaa, 1, 0x65], 2 => &[0, 0, 0, 0xaa, 0, 1, 0x65], _ => &[0xaa, 0xbb] }); }
+        d.extend_from_slice(&[0, 0, 0, 1, 0x68, 0xce, 0x38, 0x80]);
+        let mut line = String::from("annexb");
+        if r.below(3) == 0 { line.push_str(&format!(" p:{} r", hex_rle(&[0, 0, 1, 0x67, 0x42]))); }
+        if r.flag() { line.push_str(&format!(" p:{}", hex_rle(&d))); } else { let c = 1 + r.below(d.len() as u64 - 1) as usize; line.push_str(&format!(" p:{} p:{}", hex_rle(&d[..c]), hex_rle(&d[c..]))); }
+        line.push_str(" r");
+        writeln!(out, "{}", line).unwrap(); return;
+    }
     if r.flag() {
         // a push that ends inside a unit on one or two zeros (the reader holds them back), then a push that contributes
         // 2^e - 2 … 2^e bytes to the unit and either ends there, goes on, or closes the unit with a start code
@@ -218,7 +243,7 @@ fn gen_rbsp(r: &mut Rng, out: &mut dyn Write) {
         match if style == 0 { 0 } else { r.below(3) } {
             0 => { ops.push("f".to_string()); if style == 0 || r.below(2) == 0 { ops.push(format!("c{}", if r.below(3) == 0 { r.below(5) } else { 1000 })); } }
             1 => ops.push(format!("c{}", r.below(9))),
-            _ => ops.push(format!("r{}", r.pick8(&[0, 1, 1, 2, 3, 7, 64, 200]))),
+            _ => ops.push(if r.below(5) == 0 { format!("x{}", r.pick(&[1, 2, 15, 16, 17, 40, 130, 300])) } else { format!("r{}", r.pick8(&[0, 1, 1, 2, 3, 7, 64, 200])) }),
         }
     }
     ops.push("D".to_string()); if r.below(4) == 0 { ops.push("f".to_string()); ops.push("r1".to_string()); }
@@ -451,7 +476,7 @@ fn gen_bits(r: &mut Rng, out: &mut dyn Write) {
         let d: Vec<u8> = (0..len).map(|_| match r.below(4) { 0 => 0, 1 => 0xff, 2 => 0x80 >> r.below(8), _ => r.next() as u8 }).collect();
         let nops = 1 + r.below(10);
         let mut ops = vec![];
-        for k in 0..nops { let last = k == nops - 1; ops.push(match r.below(if last { 10 } else { 8 }) { 0 | 1 => "ue".to_string(), 2 => "se".to_string(), 3 => "b".to_string(), 4 | 5 => format!("u{}", r.below(33)), 6 => "more".to_string(), 7 => format!("skip{}", r.below(20)), 8 => "finish".to_string(), _ => "seifinish".to_string() }); }
+        for k in 0..nops { let last = k == nops - 1; ops.push(match r.below(if last { 10 } else { 8 }) { 0 | 1 => "ue".to_string(), 2 => "se".to_string(), 3 => "b".to_string(), 4 | 5 => format!("u{}", r.below(33)), 6 => "more".to_string(), 7 => if r.flag() { "rd".to_string() } else { format!("skip{}", r.below(20)) }, 8 => "finish".to_string(), _ => "seifinish".to_string() }); }
         writeln!(out, "bits {} {}", if d.is_empty() { "-".to_string() } else { hex(&d) }, ops.join(" ")).unwrap();
         return;
     }
@@ -467,7 +492,7 @@ fn gen_bits(r: &mut Rng, out: &mut dyn Write) {
             2 => { let m = 1u64 << r.below(32); let v = (r.next() % m) as i64 * if r.flag() { 1 } else { -1 }; w.se(v); ops.push("se".to_string()); }
             3 => { let n = r.below(33) as u32; let v = match r.below(4) { 0 => 0, 1 => if n == 0 { 0 } else { (1u64 << n) - 1 }, _ => if n == 0 { 0 } else { r.next() % (1u64 << n) } }; w.u(n, v); ops.push(format!("u{}", n)); }
             4 => { w.b(r.flag()); ops.push("b".to_string()); }
-            _ => { ops.push("more".to_string()); }
+            _ => { ops.push("more".to_string()); if r.below(3) == 0 { while w.bits.len() % 8 != 0 { w.b(r.flag()); ops.push("b".to_string()); } w.u(8, r.next() & 0xff); ops.push("rd".to_string()); if r.flag() { ops.push("more".to_string()); } } }
         }
     }
     match r.below(5) { 0 => { w.b(true); ops.push("finish".into()); } 1 => { w.b(true); ops.push("seifinish".into()); } 2 => { ops.push("seifinish".into()); } 3 => { ops.push("more".into()); ops.push("finish".into()); } _ => {} }
